@@ -438,3 +438,100 @@ def check_c11(ctx):
 
 
 CHECKS["C11"] = check_c11
+
+
+# ------------------------------------------------------------------ concurrent histories (scheduler + MapLin / CacheLin)
+
+import scen  # noqa: E402
+
+
+def run_conc(ctx, scenarios, spec, prop, label, c13=False):
+    """Run scenarios under the cooperative scheduler; validate every distinct history with TLC."""
+    sc = ctx.scratch()
+    d = lib.mktemp("verif-conc-")
+    # the harness is single threaded per process: shard scenarios over the cores
+    nsh = min(lib.NCPU, len(scenarios))
+    shards = [[] for _ in range(nsh)]
+    for i, s in enumerate(scenarios):
+        shards[i % nsh].append(s)
+
+    def work(i):
+        pin = os.path.join(d, "sc%d.json" % i)
+        out = os.path.join(d, "h%d.ndjson" % i)
+        stp = os.path.join(d, "st%d.json" % i)
+        json.dump(shards[i], open(pin, "w"))
+        sc.run("conc", inp=pin, out=out, stats=stp, timeout=7200)
+        return lib.split_traces(out), json.load(open(stp))
+
+    import concurrent.futures
+    runs, stats = [], []
+    with concurrent.futures.ThreadPoolExecutor(max_workers=nsh) as ex:
+        for r, st in ex.map(work, range(nsh)):
+            runs += r
+            stats += st
+    by_name = {s["name"] + "|" + json.dumps(s["strategy"], sort_keys=True): s for s in scenarios}
+    total_runs = sum(s["runs"] for s in stats)
+    ctx.cov["schedules_run"] = ctx.cov.get("schedules_run", 0) + total_runs
+    ctx.cov["distinct_histories"] = ctx.cov.get("distinct_histories", 0) + len(runs)
+    fams = ctx.cov.setdefault("families", {})
+    for s in stats:
+        f = fams.setdefault(s["scenario"], {"runs": 0, "distinct": 0, "outcomes": {}, "exhausted": False})
+        f["runs"] += s["runs"]
+        f["distinct"] += s["distinct"]
+        f["exhausted"] = f["exhausted"] or s["exhausted"]
+        for k, v in s["outcomes"].items():
+            f["outcomes"][k] = f["outcomes"].get(k, 0) + v
+    # scheduler verdicts (C13 / C16): deadlock, fair-budget exhaustion, panic
+    nbad = 0
+    for s in stats:
+        for b in s.get("bad") or []:
+            nbad += 1
+            if c13:
+                scn = next((x for x in scenarios if x["name"] == s["scenario"]), None)
+                rp = copy.deepcopy(scn)
+                rp["strategy"] = {"kind": "replay", "choices": b["choices"]}
+                ctx.violation({"kind": "conc-outcome", "scenario": rp, "outcome": b["outcome"], "pending": b["pending"], "tail": b.get("tail")},
+                              "%s: scenario %s ended in %s; unfinished threads %s" % (label, s["scenario"], b["outcome"], b["pending"]))
+    ctx.cov["bad_outcomes"] = ctx.cov.get("bad_outcomes", 0) + nbad
+    rejected, st = lib.validate_runs(spec, runs, env={"PROP": prop}, timeout=3600)
+    ctx.cov["traces_validated_against_impl"] += len(runs)
+    ctx.cov["events_validated"] += st["events"]
+    ctx.cov["transitions"] += st["generated"]
+    ctx.cov.setdefault("trace_validation", []).append({"label": label, "spec": spec, "schedules": total_runs, "histories": len(runs), "events": st["events"], "lin_search_states": st["distinct"], "wall_s": round(st["wall"], 1)})
+    if runs:
+        ctx.sample({"label": label, "history": [slim(json.loads(x)) for x in runs[len(runs) // 2][:14]]})
+    for (i, evi, lines) in rejected:
+        hdr = json.loads(lines[0])
+        end = json.loads(lines[-1])
+        ev = json.loads(lines[evi]) if evi < len(lines) else {}
+        scn = next((x for x in scenarios if x["name"] == hdr.get("note")), None)
+        rp = copy.deepcopy(scn) if scn else None
+        if rp and end.get("ev") == "end" and end.get("fn"):
+            rp["strategy"] = {"kind": "replay", "choices": [int(x) for x in end["fn"].split(",") if x]}
+        ctx.violation({"kind": "conc", "spec": spec, "aspects_of": prop, "scenario": rp, "rejected_event_index": evi, "event": ev,
+                       "history": [slim(json.loads(x)) for x in lines]},
+                      "%s: history of %s not accepted by %s at event %d: %s" % (label, hdr.get("note"), spec, evi, json.dumps(slim(ev))))
+    return runs, stats
+
+
+def map_scenarios(ctx, kinds, pick=None):
+    scs = []
+    for (kind, kt, vt) in kinds:
+        for strat in scen.strategies(ctx.tier, lib.seed()):
+            for s in scen.map_families(kind, kt, vt, strat):
+                if pick is None or any(s["name"].startswith(p) for p in pick):
+                    scs.append(s)
+    return scs
+
+
+def check_c03(ctx):
+    run_conc(ctx, map_scenarios(ctx, [("Map", "", "")]), "Trace_MapLin", "C03", "Map families")
+
+
+def check_c04(ctx):
+    kinds = [("MapOf", "string", "any"), ("MapOf", "int", "int"), ("MapOf", "struct", "string")]
+    run_conc(ctx, map_scenarios(ctx, kinds), "Trace_MapLin", "C04", "MapOf families")
+
+
+CHECKS["C03"] = check_c03
+CHECKS["C04"] = check_c04
